@@ -20,7 +20,8 @@ RULE = ("(i) Hypothesis-generated lists of 2-7 per-locus assignment records of o
         "MultimapResolver; (ii) generated paralogous loci on 2-4 chromosomes with reads carrying primary + secondary "
         "(+ duplicate) records whose per-locus class is controlled by the recipe, run in default and --high_memory "
         "mode and with permuted chromosome lengths / tie order. Non-trivial = alignments in >= 2 priority classes or a "
-        "tie of >= 2 kept loci; distinct by content hash.")
+        "tie of >= 2 kept loci; distinct by content hash. When models are built the scenario is also run "
+        "without the alignments that lost (class losers_removed_compared).")
 ASSUMPTIONS = ["an alignment's identity is (chromosome, start, end, isoform set): copies seen from two processing "
                "regions are one alignment",
                "within the inconsistent and uninformative classes the statement does not say which alignment wins; "
